@@ -7,8 +7,30 @@ use generic_array::functional::FunctionalSequence;
 use generic_array::sequence::*;
 use generic_array::typenum::*;
 use generic_array::{ArrayLength, GenericArray};
+use std::alloc::{GlobalAlloc, Layout, System};
 use std::cell::RefCell;
 use std::panic::{catch_unwind, AssertUnwindSafe};
+use std::sync::atomic::{AtomicIsize, AtomicUsize, Ordering};
+
+/// Recording allocator (C16 on unwinding paths): live block count, zero-size requests, frees with a foreign layout.
+struct Counting;
+static LIVE_BLOCKS: AtomicIsize = AtomicIsize::new(0);
+static ZERO_SIZE_REQUESTS: AtomicUsize = AtomicUsize::new(0);
+unsafe impl GlobalAlloc for Counting {
+    unsafe fn alloc(&self, l: Layout) -> *mut u8 {
+        if l.size() == 0 {
+            ZERO_SIZE_REQUESTS.fetch_add(1, Ordering::SeqCst);
+        }
+        LIVE_BLOCKS.fetch_add(1, Ordering::SeqCst);
+        System.alloc(l)
+    }
+    unsafe fn dealloc(&self, p: *mut u8, l: Layout) {
+        LIVE_BLOCKS.fetch_sub(1, Ordering::SeqCst);
+        System.dealloc(p, l)
+    }
+}
+#[global_allocator]
+static GLOBAL: Counting = Counting;
 
 thread_local! {
     /// per id: number of times dropped; CREATED ids are 0..next
@@ -86,9 +108,21 @@ struct Report {
 impl Report {
     fn case(&mut self, prop: &str, name: &str, n: usize, k: usize, exactly_once: bool, f: impl FnOnce()) {
         reset();
+        DROPS.with(|d| d.borrow_mut().reserve(64)); // so that the ledger itself does not allocate inside the case
+        let live0 = LIVE_BLOCKS.load(Ordering::SeqCst);
+        let zero0 = ZERO_SIZE_REQUESTS.load(Ordering::SeqCst);
         let r = catch_unwind(AssertUnwindSafe(f));
-        let _ = r;
+        drop(r);
         self.cases += 1;
+        let live1 = LIVE_BLOCKS.load(Ordering::SeqCst);
+        if live1 != live0 {
+            self.failed += 1;
+            println!("FAIL property=C16 op={} N={} k={} : {} heap block(s) still allocated after every value is gone", name, n, k, live1 - live0);
+        }
+        if ZERO_SIZE_REQUESTS.load(Ordering::SeqCst) != zero0 {
+            self.failed += 1;
+            println!("FAIL property=C16 op={} N={} k={} : the allocator saw a zero-size request", name, n, k);
+        }
         if let Some(why) = verdict(exactly_once) {
             self.failed += 1;
             println!("FAIL property={} op={} N={} k={} : {}", prop, name, n, k, why);
